@@ -71,7 +71,7 @@ std::string asmCase(const vio::Case &c) {
     j.boolean("reemit_same", file.size() >= 4 + again.str().size() &&
               file.compare(4, again.str().size(), again.str()) == 0);
   } catch (const hexutil::Error &e) {
-    j.boolean("ok", false).str("errtype", "Error").str("err", e.what()).boolean("located", e.hasLocation());
+    j.boolean("ok", false).str("errtype", "Error").str("err", e.what()).boolean("located", e.hasLocation()).str("errclass", vio::demangled(e));
     j.boolean("wrote", access(outName.c_str(), F_OK) == 0);
   } catch (const std::exception &e) {
     j.boolean("ok", false).str("errtype", "std::exception").str("err", e.what()).boolean("located", false);
